@@ -477,10 +477,7 @@ Definition step_lease (fl : flavour) (c : cfg) (now : Z) (k : lease_kind) (l : l
   else
     let resolved :=
       match l with
-      | LKnown x padded => match fl with
-                           | Mem => if padded then None else Some x
-                           | Sql => Some x
-                           end
+      | LKnown x _ => Some x        (* both backends trim the id (memory since fix 7f7b120) *)
       | LBlank | LUnknown => None
       end in
     match resolved with
@@ -624,12 +621,9 @@ Definition valid_dead_listing (route : option N) (limit : Z) (before : option Z)
 Definition step_list_dead (fl : flavour) (c : cfg) (now : Z) (route : option N) (limit : Z) (before : option Z)
            (o : oracle) (s : state) : state * res :=
   let s1 := prune c now (o_gone o) s in
-  match fl with
-  | Mem => (s1, RList (map m_id (firstn (Z.to_nat (eff_limit limit))
-                                        (sort_by m_recv false (filter (dead_match route before) (msgs s1))))))
-  | Sql => if valid_dead_listing route limit before (msgs s1) (o_listed o)
-           then (s1, RList (o_listed o)) else (s1, RBadOracle)
-  end.
+  (* both backends: received_at DESC, id DESC (SQLite since fix 7f7b120) *)
+  (s1, RList (map m_id (firstn (Z.to_nat (eff_limit limit))
+                               (sort_by m_recv false (filter (dead_match route before) (msgs s1)))))).
 
 Definition step_lookup (ids : list rid) (s : state) : state * res :=
   (s, RLookup (flat_map (fun i => match find_id i (msgs s) with
